@@ -156,6 +156,12 @@ def runRespWith (wire : Bool) (ws : List String) : String :=
         | none => "chunks=* n=! sum=!"
       else "chunks=* n=- sum=-"
     else "chunks=" ++ showNats (chunks.map List.length) ++ " " ++ showSum chunks.flatten
+  -- which path each chunk takes (the harness observes it through a gated blocking pool)
+  let pathStr :=
+    if isEnc then
+      let p := String.ofList ((chunksOf r.evs).map fun b => if Encoder.inPlaceCode b then 'I' else 'B')
+      if p.isEmpty then "-" else p
+    else "-"
   if wire then
     let fr := h1Framing r.size r.head.noChunking (optVal ws "hcl")
     let sumStr :=
@@ -173,7 +179,7 @@ def runRespWith (wire : Bool) (ws : List String) : String :=
   "st=" ++ toString r.head.status ++
     " ce=" ++ showList (hGetAll r.head.headers "content-encoding") ++
     " vary=" ++ showList (hGetAll r.head.headers "vary") ++
-    " size=" ++ showSize r.size ++ " " ++ bodyStr ++ " end=" ++ fin
+    " size=" ++ showSize r.size ++ " " ++ bodyStr ++ " path=" ++ pathStr ++ " end=" ++ fin
 
 def runResp (ws : List String) : String := runRespWith false ws
 
